@@ -1246,9 +1246,148 @@ func main() {
 		streamC14(r)
 	case "C15":
 		streamC15(r)
+	case "C10":
+		streamC10(r)
 	default:
 		fmt.Fprintln(os.Stderr, "unknown property", prop)
 		os.Exit(2)
 	}
 	hx.Must(sink.Write(*out))
+}
+
+// ---------------------------------------------------------------------------------------------
+// C10 (lazyproto half): in safe mode, values handed out by the accessors stay intact when the caller
+// overwrites the input buffer, after Close, and after later decodes that recycle the pooled result
+
+func snapshotAll(res *lazyproto.DecodeResult, ops []aop) []string {
+	out := make([]string, len(ops))
+	for i, o := range ops {
+		out[i] = observe(res, o)
+	}
+	return out
+}
+
+type held struct {
+	strs  []string
+	bytes [][]byte
+	copyS []string
+	copyB [][]byte
+}
+
+func streamC10(r *hx.Rng) {
+	n := 400
+	if thorough {
+		n = 5000
+	}
+	for i := 0; i < n; i++ {
+		lv := randLevel(r, 2)
+		d := randDef(r, lv, 2)
+		if len(d.keys) == 0 {
+			continue
+		}
+		for _, fast := range []bool{false, true} {
+			mode := csproto.DecoderModeSafe
+			if fast {
+				mode = csproto.DecoderModeFast
+			}
+			dec, err := lazyproto.NewDecoder(d.toGo(), lazyproto.WithMode(mode), lazyproto.WithMaxBufferSize([]int{0, 1, 2, 100}[i%4]))
+			if err != nil {
+				continue
+			}
+			input := encodeAll(randMessage(r, lv))
+			if len(input) == 0 {
+				continue
+			}
+			buf := append([]byte{}, input...)
+			res, err := dec.Decode(buf)
+			if err != nil || res == nil {
+				continue
+			}
+			// hold on to real values (not renderings): strings and byte slices of every top-level tag
+			var h held
+			for _, k := range d.keys {
+				if fd, err := res.GetFieldData(k); err == nil {
+					if s, err := fd.StringValue(); err == nil {
+						h.strs = append(h.strs, s)
+					}
+					if ss, err := fd.StringValues(); err == nil {
+						h.strs = append(h.strs, ss...)
+					}
+					if b, err := fd.BytesValue(); err == nil {
+						h.bytes = append(h.bytes, b)
+					}
+					if bs, err := fd.BytesValues(); err == nil {
+						h.bytes = append(h.bytes, bs...)
+					}
+				}
+			}
+			for _, s := range h.strs {
+				h.copyS = append(h.copyS, strings.Clone(s))
+			}
+			for _, b := range h.bytes {
+				h.copyB = append(h.copyB, append([]byte{}, b...))
+			}
+			ops := genOps(r, d, lv, 6)
+			before := snapshotAll(res, ops)
+			// 1. the caller overwrites its buffer
+			for j := range buf {
+				buf[j] ^= 0xFF
+			}
+			after := snapshotAll(res, ops)
+			changed := false
+			for j := range before {
+				if before[j] != after[j] {
+					changed = true
+				}
+			}
+			heldChanged := func() bool {
+				for j, s := range h.strs {
+					if s != h.copyS[j] {
+						return true
+					}
+				}
+				for j, b := range h.bytes {
+					if string(b) != string(h.copyB[j]) {
+						return true
+					}
+				}
+				return false
+			}
+			hc1 := heldChanged()
+			// 2. Close, then recycle the pooled result with other inputs
+			_ = res.Close()
+			for k := 0; k < 3; k++ {
+				other := encodeAll(randMessage(r, lv))
+				if len(other) == 0 {
+					other = []byte{0x08, 0x01}
+				}
+				if r2, err := dec.Decode(other); err == nil && r2 != nil {
+					for _, o := range ops {
+						observe(r2, o)
+					}
+					_ = r2.Close()
+				}
+			}
+			hc2 := heldChanged()
+			sink.OracleN++
+			cs := fmt.Sprintf("def=%s input=%s fast=%v", d, hx.B(input), fast)
+			impl := "same"
+			if changed || hc1 || hc2 {
+				impl = "changed"
+			}
+			if !fast && impl == "changed" {
+				what := "values read from a safe-mode lazy decode result changed when the input buffer was overwritten"
+				if !changed && !hc1 && hc2 {
+					what = "values handed out by a safe-mode lazy decode result changed after Close and later decodes"
+				}
+				fail(what, cs, "unchanged", fmt.Sprintf("reads-changed=%v held-changed-after-overwrite=%v held-changed-after-reuse=%v", changed, hc1, hc2), "lazy-alias")
+			}
+			m := "safe"
+			if fast {
+				m = "fast"
+				impl = "unspecified" // the user opted into aliasing: nothing is claimed
+			}
+			sink.Add("lazy-alias", fmt.Sprintf("L10 %s %d %s", m, len(h.strs)+len(h.bytes), hx.B(input)), impl, len(h.strs)+len(h.bytes) > 0)
+		}
+	}
 }
